@@ -22,9 +22,10 @@ RULES = {
     "R3": "thinning congruence b - a + 1 + offset == 0 (mod thin); recorded value is the state after the step of the same iteration",
     "R4": "stream derivation: default_rng(SeedSequence(seed).spawn(n_chains)[chain_index]); slice = {seed, n_chains, chain_index}",
     "R5": "VI arm: model.sample(num_samples=results.n_thetas) once, outside loops; every returned sample is added",
+    "R7": "one model.step() is exactly one unconditional sweep (mcmc_step) of the wrapped sampler, in every MCMC model class",
     "R6": "0 is a legal burn-in length and a legal chain index: no refusal of sample() fires because n_burnin / chain_index is 0",
 }
-MIN = {"R1": 2, "R2": 2, "R3": 2, "R4": 2, "R5": 1, "R6": 2}
+MIN = {"R1": 2, "R2": 2, "R3": 2, "R4": 2, "R5": 1, "R6": 2, "R7": 1}
 TRUSTED = ["numpy SeedSequence.spawn yields independent child sequences; a fresh SeedSequence(seed) is a function of seed only",
            "tqdm.trange(n) iterates 0..n-1"]
 TECHNIQUE = "dominance and loop-shape rules on the CFG, congruence check of the thinning predicate over the polynomial normal form, backward slice of the generator"
@@ -431,7 +432,32 @@ def r6(ctx):
                   (": a chain without burn-in cannot be sampled" if P == "n_burnin" else ": the first chain cannot be sampled"))
 
 
-RULE_FUNCS = [r_all, r5, r6]
+def r7(ctx):
+    """`n` recorded states after b + n*t steps presupposes that one `model.step()` is one sweep of the sampler: in every MCMC model of
+    the repository `step` performs exactly one unconditional `<impl>.mcmc_step()` (no loop, no condition, nothing skipped or repeated)"""
+    R = ctx.R
+    n = 0
+    for cq in sorted(R.classes):
+        if not any(k.endswith(".MCMCModel") for k in R.mro(cq)) or cq.endswith(".MCMCModel"):
+            continue
+        q = f"{cq}.step"
+        if q not in R.funcs:
+            continue
+        f = ctx.fn(q)
+        n += 1
+        body = [st for st in f.node.body if not (isinstance(st, ast.Expr) and isinstance(st.value, ast.Constant))]
+        sweeps = [c for c in calls(f.node) if isinstance(c.func, ast.Attribute) and c.func.attr in ("mcmc_step", "step")]
+        top = [st for st in body if isinstance(st, ast.Expr) and isinstance(st.value, ast.Call) and st.value in sweeps]
+        if not sweeps:
+            raise AnalysisError(f"{f.site()}: step() does not delegate to a sampler sweep (`mcmc_step`); what one step does is not visible to this rule")
+        ok = len(sweeps) == 1 and len(top) == 1 and not any(isinstance(x, (ast.For, ast.While, ast.If, ast.Try, ast.Return)) for x in walk_own(f.node))
+        ctx.check("R7", f"{f.site()}::one-sweep-per-step", ok, "step() is exactly one unconditional sweep of the wrapped sampler",
+                  f"step() performs {len(sweeps)} sweep call(s), {len(top)} of them unconditional at the top level: the chain advances by another number of sweeps per "
+                  f"recorded step than the schedule assumes")
+    ctx.need(n >= 1, "no MCMC model with a step() method found")
+
+
+RULE_FUNCS = [r_all, r5, r6, r7]
 
 
 def run(ctx):
